@@ -1184,3 +1184,101 @@ func ruleFrameLimit(r *Run) {
 		r.Check("G8", "frame-limit-left-to-the-transport", true, 0, "no function of the repository assigns Conn.MaxPayloadBytes (all non-test functions scanned)")
 	}
 }
+
+// ruleDeadlines (G9): a deadline of the client connection is an absolute time; it bounds the operations that
+// follow only if it is re-armed for each of them. A Set*Deadline with a real time that is not made per operation
+// (inside the loop that does the I/O, or in a function called from such a loop) expires once: from then on every
+// read or write fails and an active, healthy client is disconnected. Clearing a deadline (the zero time) is free.
+func ruleDeadlines(r *Run) {
+	if r.broken() {
+		return
+	}
+	funcs := append([]*Func{}, r.P.All...)
+	for _, lf := range r.P.Lits {
+		funcs = append(funcs, lf)
+	}
+	sort.Slice(funcs, func(i, j int) bool { return funcs[i].Name < funcs[j].Name })
+	inLoop := func(fn *Func, pos token.Pos) bool {
+		found := false
+		ast.Inspect(fn.Body, func(nd ast.Node) bool {
+			switch v := nd.(type) {
+			case *ast.FuncLit:
+				return r.P.Lits[v] == fn
+			case *ast.ForStmt:
+				if v.Body.Pos() <= pos && pos < v.Body.End() {
+					found = true
+				}
+			case *ast.RangeStmt:
+				if v.Body.Pos() <= pos && pos < v.Body.End() {
+					found = true
+				}
+			}
+			return true
+		})
+		return found
+	}
+	var perOp func(fn *Func, pos token.Pos, depth int) bool
+	perOp = func(fn *Func, pos token.Pos, depth int) bool {
+		if inLoop(fn, pos) {
+			return true
+		}
+		if fn.Obj == nil || depth > 3 {
+			return false
+		}
+		calls, all := 0, true
+		for _, g := range funcs {
+			if g.Body == nil {
+				continue
+			}
+			ast.Inspect(g.Body, func(nd ast.Node) bool {
+				if l, isLit := nd.(*ast.FuncLit); isLit && r.P.Lits[l] != g {
+					return false
+				}
+				if c, ok := nd.(*ast.CallExpr); ok && calleeObj(g.Info(), c) == types.Object(fn.Obj) {
+					calls++
+					if !perOp(g, c.Pos(), depth+1) {
+						all = false
+					}
+				}
+				return true
+			})
+		}
+		return calls > 0 && all
+	}
+	n := 0
+	for _, fn := range funcs {
+		if fn.Body == nil || !isRepoPkg(fn.Pkg.Types) {
+			continue
+		}
+		info := fn.Info()
+		ast.Inspect(fn.Body, func(nd ast.Node) bool {
+			if l, isLit := nd.(*ast.FuncLit); isLit && r.P.Lits[l] != fn {
+				return false
+			}
+			call, ok := nd.(*ast.CallExpr)
+			if !ok || len(call.Args) != 1 {
+				return true
+			}
+			f, _ := calleeObj(info, call).(*types.Func)
+			if f == nil || f.Pkg() == nil || f.Pkg().Path() != "golang.org/x/net/websocket" {
+				return true
+			}
+			switch f.Name() {
+			case "SetDeadline", "SetReadDeadline", "SetWriteDeadline":
+			default:
+				return true
+			}
+			// the zero time clears the deadline
+			if cl, isLit := ast.Unparen(call.Args[0]).(*ast.CompositeLit); isLit && len(cl.Elts) == 0 {
+				return true
+			}
+			n++
+			r.Check("G9", fn.Name+":deadline-armed-per-operation["+f.Name()+"]", perOp(fn, call.Pos(), 0), call.Pos(),
+				"%s sets an absolute %s on the client connection once, not for each operation it is meant to bound: when it has passed, every later read or write fails and a client that is active and healthy is disconnected", fn.Name, f.Name())
+			return true
+		})
+	}
+	if n == 0 {
+		r.Check("G9", "no-connection-deadlines", true, 0, "no function of the repository sets a deadline on the client connection (all non-test functions scanned)")
+	}
+}
